@@ -52,7 +52,8 @@ AlphabetSet ==
             k \in {"eval", "acc", "apol"}, s \in Addrs, r \in Addrs, e \in Eons}
      ELSE {}) \cup
     (IF "bad" \in Kinds THEN
-        {Op("tx", BaseTx("garbage", NoAddr), "fresh")} \cup
+        (* gm selects one of the undecodable byte-string variants of the concretiser *)
+        {Op("tx", [BaseTx("garbage", NoAddr) EXCEPT !.gm = v], "fresh") : v \in 0..9} \cup
         {Op("tx", BaseTx(k, s), "fresh") : k \in {"wrongchain", "nopayload"}, s \in Addrs} \cup
         (* every structural defect of every payload type (app/messages.go, batchconfig.go, deliverCheckIn) *)
         {Op("tx", [BaseTx("vote", s) EXCEPT !.cfg = Cands[1], !.bad = d], "fresh") : s \in Addrs, d \in {"dupAddr", "badAddrLen"}} \cup
@@ -68,7 +69,7 @@ AlphabetSet ==
      ELSE {}) \cup
     (IF "chk" \in Kinds THEN
         {Op("chk", [BaseTx("seen", s) EXCEPT !.b = b], "fresh") : s \in Addrs, b \in SeenBlocks} \cup
-        {Op("chk", BaseTx("garbage", NoAddr), "fresh")} \cup
+        {Op("chk", [BaseTx("garbage", NoAddr) EXCEPT !.gm = v], "fresh") : v \in 0..9} \cup
         {Op("chk", BaseTx("wrongchain", s), "fresh") : s \in Addrs}
      ELSE {}) \cup
     {Op("end", BaseTx("none", NoAddr), "fresh")}
